@@ -396,6 +396,12 @@ class ArrV:
                 raise ev.err("non-trivial index on a grid axis", n, mod)
         sets, scalar = [], []
         for size, i in zip(self.shape, const_items):
+            if isinstance(i, Tup) and len(i.items) == size and i.items and all(isinstance(x, bool) or x in (sp.true, sp.false) for x in i.items):
+                i = Tup([sp.Integer(j) for j, x in enumerate(i.items) if x is True or x == sp.true], "list")     # a list of decided booleans: a mask
+            if isinstance(i, ArrV) and not i.batch and len(i.shape) == 1 and i.shape[0] == size \
+                    and all(isinstance(i.get((j,)), bool) or i.get((j,)) in (sp.true, sp.false) for j in range(size)):
+                # a boolean mask with decided entries: the positions where it is true
+                i = Tup([sp.Integer(j) for j in range(size) if i.get((j,)) is True or i.get((j,)) == sp.true], "list")
             if isinstance(i, ArrV) and not i.batch and len(i.shape) == 1 and all(is_sym(i.get((j,))) and sp.sympify(i.get((j,))).is_Integer for j in range(i.shape[0])):
                 i = Tup([i.get((j,)) for j in range(i.shape[0])], "list")                    # an integer index vector: the same as a list of integers
             if isinstance(i, Tup) and all(is_sym(x) and x.is_Integer for x in i.items):      # integer-list (fancy) index on one axis
@@ -964,6 +970,20 @@ class Ev:
             if isinstance(v, ArrV) and all(isinstance(c, bool) for c in list(v.cells.values()) + [v.fill]):
                 out = ArrV(v.batch, v.shape, not v.fill, batch_last=v.batch_last)
                 out.cells = {kk: (not c) for kk, c in v.cells.items()}
+                return out
+            if isinstance(v, ArrV) and getattr(v, "is_cond", False):
+                # a mask with one entry per cell: decided entries are negated, undecided ones become the negated condition
+                def inv(c):
+                    if isinstance(c, bool) or c in (sp.true, sp.false):
+                        return not (c is True or c == sp.true)
+                    if isinstance(c, CondV):
+                        neg_ = {"==": "!=", "!=": "==", "<": ">=", ">=": "<", ">": "<=", "<=": ">"}[c.op]
+                        return CondV(f"not ({c.text})", c.lhs, neg_, c.rhs)
+                    raise self.err("~ of a mask entry that is neither decided nor a comparison", n, mod)
+                out = ArrV(v.batch, v.shape, None, batch_last=v.batch_last)
+                for kk in itertools.product(*[range(d_) for d_ in v.shape]):
+                    out.cells[kk] = inv(v.get(kk))
+                out.is_cond = True
                 return out
             if isinstance(v, CondV):
                 neg = {"==": "!=", "!=": "==", "<": ">=", ">=": "<", ">": "<=", "<=": ">"}.get(v.op)
